@@ -85,6 +85,10 @@ pub enum Tweak {
     /// the prepared reply is gone when the error is applied (`response.take()`, or a request object
     /// that was not built by `from_packet`): there is nothing to apply the error to
     NoResp,
+    /// the application already gave the reply a status (any code byte) …
+    Code(u8),
+    /// … and a body, before the error is applied (e.g. an earlier error, or a half-built answer)
+    Pay(Vec<u8>),
 }
 
 fn case_err(cx: &mut Ctx, spec: &PktSpec, code: Option<u8>, msg: &[u8], pre: &[(u16, Vec<u8>)]) {
@@ -104,6 +108,8 @@ pub fn case_err_tweaked(cx: &mut Ctx, spec: &PktSpec, code: Option<u8>, msg: &[u
             Tweak::ReqTok(t) => format!("rtok={}", hex(t)),
             Tweak::Clr(n) => format!("clr={}", n),
             Tweak::NoResp => "noresp".to_string(),
+            Tweak::Code(c) => format!("code={}", c),
+            Tweak::Pay(p) => format!("pay={}", hex(p)),
         });
     }
     let pretok = parts.join(",");
@@ -128,6 +134,8 @@ pub fn case_err_tweaked(cx: &mut Ctx, spec: &PktSpec, code: Option<u8>, msg: &[u
                     Tweak::Tok(t) => resp.message.set_token(t.clone()),
                     Tweak::Typ(t) => resp.message.header.set_type(crate::tbl::mtype(*t as u64)),
                     Tweak::Clr(n) => resp.message.clear_option(coap_lite::CoapOption::from(*n)),
+                    Tweak::Code(c) => resp.message.header.code = MessageClass::from(*c),
+                    Tweak::Pay(p) => resp.message.payload = p.clone(),
                     _ => {}
                 }
             }
@@ -319,6 +327,21 @@ pub fn run(cx: &mut Ctx) {
                 let spec = PktSpec { vtt: 0x40 | typ << 4 | tkl as u8, code: CodeSpec::Byte(1), mid: 0x4444, tok: vec![0xab; tkl], opts: vec![(11, b"r".to_vec())], payload: vec![] };
                 case_err_tweaked(cx, &spec, code, b"late", &[], &[Tweak::NoResp]);
                 case_err_tweaked(cx, &spec, code, b"late", &[(12, vec![50])], &[Tweak::ReqMid(7), Tweak::NoResp]);
+            }
+        }
+    }
+    // the reply already has a status and / or a body when the error is applied (a second error after a
+    // first one, an answer the application had started to build): the new error replaces both
+    for typ in 0..2u8 {
+        for code in [Some(0x84u8), Some(0xA0), Some(0x45), None] {
+            for pre_code in [0x45u8, 0x84, 0xA0, 0xA3, 0x5f, 0x00] {
+                for pay in [vec![], b"first failure".to_vec()] {
+                    for msg in [&b""[..], &b"second"[..]] {
+                        let spec = PktSpec { vtt: 0x40 | typ << 4 | 1, code: CodeSpec::Byte(1), mid: 0x5555, tok: vec![0x31], opts: vec![(11, b"r".to_vec())], payload: vec![] };
+                        case_err_tweaked(cx, &spec, code, msg, &[], &[Tweak::Code(pre_code), Tweak::Pay(pay.clone())]);
+                        case_err_tweaked(cx, &spec, code, msg, &[(12, vec![0])], &[Tweak::Code(pre_code), Tweak::Pay(pay.clone())]);
+                    }
+                }
             }
         }
     }
